@@ -3,6 +3,7 @@ package wmpt
 import (
 	"bytes"
 	"context"
+	"encoding/binary"
 	"errors"
 	"sync"
 
@@ -365,9 +366,53 @@ func (t *WeightedMerkleTrie) Root() []byte {
 		return emptyState
 	}
 	if t.root.Dirty() {
-		return t.root.CalcHash()
+		if t.db == nil {
+			return t.root.CalcHash()
+		}
+		// a trie backed by storage must keep its dirty marks until Commit has saved the nodes
+		return peekHash(t.root)
 	}
 	return t.root.Hash()
+}
+
+// peekHash computes the hash of a node like CalcHash, but without marking the node (or its children) as clean,
+// so that a later Commit still saves them
+func peekHash(node Node) []byte {
+	switch n := node.(type) {
+	case *routingNode:
+		if !n.dirty {
+			return n.hash
+		}
+		m := make([]byte, 0, branchNodeHashDataLength)
+		m = binary.BigEndian.AppendUint64(m, n.weight)
+		for _, child := range n.Children {
+			if child == nil {
+				m = append(m, emptyState...)
+			} else {
+				m = append(m, peekHash(child)...)
+			}
+		}
+		return encryption.RawHash(m)
+	case *shortNode:
+		if !n.dirty {
+			return n.hash
+		}
+		m := make([]byte, 0, len(n.key)+32)
+		m = append(m, n.key...)
+		if n.value != nil {
+			m = append(m, peekHash(n.value)...)
+		}
+		return encryption.RawHash(m)
+	case *valueNode:
+		if !n.dirty {
+			return n.hash
+		}
+		m := make([]byte, 0, hashWithWeightLength)
+		m = binary.BigEndian.AppendUint64(m, n.weight)
+		m = append(m, n.value...)
+		return encryption.RawHash(m)
+	}
+	return node.Hash()
 }
 
 func (t *WeightedMerkleTrie) Weight() uint64 {
